@@ -68,13 +68,14 @@ QUICK_VARIANTS = [
     ("aff-fxpunk-nochk", _cfg(64, False, proj=False, fxp="COMB_1T", fw=4, unk="SLIDING_WIN", uw=4,
                               twin="FXP_UNKPT", chk=False), "gcc", False),
     ("d32-proj-bin", _cfg(32, True, proj=True, fxp="SLIDING_WIN", fw=4, unk="BIN", uw=2, twin="BIN"), "gcc", True),
+    # binary fixed-point multiplication reports O by flag only (stale coordinates): zero nonce / zero key reach the callers
+    ("d64-nomd-bin", _cfg(64, False, True, False, False, "BIN", 2, "BIN", 2, "BIN"), "gcc", True),
 ]
 THOROUGH_EXTRA = [
     # NB: the sliding-window width "must be power of 2" (header comment); 3 or 5 makes the precompute fail
     ("d16-proj-mix-joint", _cfg(16, True, True, True, True, "COMB_1T", 3, "SLIDING_WIN", 2, "JOINT"), "gcc", True),
     ("d128-proj-inter", _cfg(128, True, True, True, False, "COMB_2T", 4, "COMB_1T", 2, "INTER", chk=False), "gcc", False),
     ("d8-proj-bin-nochk", _cfg(8, True, True, True, True, "BIN", 2, "BIN", 2, "BIN", chk=False, bitlen=1408), "gcc", False),
-    ("d64-nomd-bin", _cfg(64, False, True, False, False, "BIN", 2, "BIN", 2, "BIN"), "gcc", True),
     ("proj-nomix-joint-c2t5", _cfg(64, True, True, False, True, "COMB_2T", 5, "COMB_2T", 5, "JOINT"), "gcc", True),
     ("proj-mix-fxpunk-sw", _cfg(64, True, True, True, False, "SLIDING_WIN", 4, "SLIDING_WIN", 4, "FXP_UNKPT", chk=False), "gcc", False),
     ("proj-precalcdbl", _cfg(64, True, True, True, True, "BIN_PRECALC_DBL", 2, "BIN", 2, "FXP_UNKPT"), "gcc", True),
